@@ -5,7 +5,7 @@ LEVEL = "proof"
 TAGS = ("C05",)
 CONTRACT_MODULES = ALL_CONTRACTS
 FUNCTIONS = [S + "processLinearMoves", "RetractionState.RetractionState._addCommands", H + "_handle_G10", H + "_handle_G11",
-             S + "exitExcludedRegion", S + "isAnyPointExcluded", H + "_handle_G92", H + "_handle_G28", H + "_handle_G20", H + "_handle_G21", H + "_handle_G90", H + "_handle_G91", H + "_handle_M206", S + "enterExcludedRegion"] + [S + "resetState"]
+             S + "exitExcludedRegion", S + "isAnyPointExcluded", H + "_handle_G92", H + "_handle_G28", H + "_handle_G20", H + "_handle_G21", H + "_handle_G90", H + "_handle_G91", H + "_handle_M206", S + "enterExcludedRegion"] + [S + "resetState"] + [P + "on_event"]
 ASSUMPTIONS = ["A1", "A2", "A3", "A4", "A5", "INDUCTION"]
 BOUNDED = [script("retract_params.py")]
 EXTRA_ASSUMPTIONS = ["GCODE_PARAMS_REGEX.sub is seen as the uninterpreted function 'parameter text of the command'; that the regex computes it is checked bounded (coverage.bounded: bounded/retract-params)",
